@@ -272,6 +272,40 @@ func (bs *boolSummer) evalBool(fn *ssa.Function, v ssa.Value, cond lits, pe map[
 				return bs.evalBool(fn, e, cond, pe, env, depth)
 			}
 		}
+	case *ssa.Extract:
+		// `v, ok := helper(...)`: expand loop-free module helpers whose result #Index is the bool
+		if call, isCall := x.Tuple.(*ssa.Call); isCall && depth < 3 {
+			if sc := staticCallee(call); sc != nil {
+				g := unwrapSynthetic(sc)
+				if g != nil && g.Blocks != nil && isModPath(originPkgPath(g)) && x.Index < g.Signature.Results().Len() && isBoolType(g.Signature.Results().At(x.Index).Type()) && !opaqueBool[funcName(g)] {
+					nenv := map[string]string{}
+					args := callArgs(call)
+					for i, p := range g.Params {
+						if i < len(args) {
+							a, _ := normValueName(args[i], env)
+							nenv["$"+p.Name()] = a
+						}
+					}
+					if paths, ok := bs.summarise(g, nenv, depth+1); ok {
+						var out []boolCase
+						for _, p := range paths {
+							c2 := cond
+							for a, val := range p.cond {
+								c2 = c2.with(a, val)
+								if c2 == nil {
+									break
+								}
+							}
+							if c2 == nil || x.Index >= len(p.vals) {
+								continue
+							}
+							out = append(out, bs.evalBool(g, p.vals[x.Index], c2, p.pe, nenv, depth+1)...)
+						}
+						return out
+					}
+				}
+			}
+		}
 	case *ssa.Call:
 		// expand loop-free module functions returning a single bool
 		if sc := staticCallee(x); sc != nil && depth < 3 {
